@@ -252,6 +252,8 @@ def run(prog, rep):
         rep.check(ok, "C16.P", "parse_global :: fields", f.loc(), "name ← identifier, quantifier ← suffix, default ← None | Some(string after `=`)", "global declaration is built as " + detail)
     else:
         rep.violation("C16.P", "anchor-lost:parse_global", "", "not found")
+    from ..engines import e5_writers as e5
+    e5.file_tables_grow_only(prog, rep)
     # read-only caller set
     # a global cannot be redeclared: the loader registers every declaration in one map and a second one is an error
     from . import C06
